@@ -560,6 +560,11 @@ class Compiler:
                 raise CompilationError('subquery has too many columns', node.right)
             right = EvalConstantSubquery1D(right)
 
+        if right.dtype is not object and not issubclass(right.dtype, (set, frozenset, list, tuple, dict)):
+            raise CompilationError(
+                f'operator "{type(node).__name__.lower()}('
+                f'{types.name(left.dtype)}, {types.name(right.dtype)})" not supported', node)
+
         op = OPERATORS[type(node)][0]
         return op(left, right)
 
